@@ -5,7 +5,7 @@ import os
 
 ROOT = os.path.dirname(os.path.dirname(os.path.abspath(__file__)))
 
-COMMON_NOTE = ("Trusted base: TLC 1.8 evaluating the TLA+ modules under spec/; gcc/clang building $VERIF_REPO/src "
+COMMON_NOTE = ("A driver process that dies outside an observed call ends its trace with a Died event, which no trace specification accepts (reported as a violation of the property being checked). Trusted base: TLC 1.8 evaluating the TLA+ modules under spec/; gcc/clang building $VERIF_REPO/src "
                "(default /repo) from the current working tree; the C drivers under harness/ record arguments, "
                "results and observed memory faithfully (they do not judge). A universally quantified input space "
                "is covered exhaustively only on the spec-generated boundary/scenario classes; elsewhere by seeded "
@@ -109,7 +109,7 @@ CHECKS = {
              "values, 64-bit blocks); the driver runs the real encoders/decoders on every leaf with the decoder reading "
              "an exact-size guard-page copy of exactly the bytes the encoder reported, and TLC validates every event "
              "(decoded sequence = input, bytes consumed, random access = full decode)."
-             " The scenario space includes progressions whose minimum/range sits on every tagged length class and on every mined source constant, zero-width 128-blocks, the marker coincidence at every position; every scenario also runs through the encoders' meta == NULL path, with output structs primed by a decoy encode, in the default, unoptimised and AVX2/AVX-512 (simd) builds; single-block BP128 codecs, RLE run iteration and dictionary Find/Lookup are bound as block / random-access readers. Wire.tla compares the bytes of FOR/PFOR/RLE/delta/group/dict/Elias-array/BP128 encodings and the adaptive envelope (unclaimed conformance fact).",
+             " The scenario space includes progressions whose minimum/range sits on every tagged length class and on every mined source constant, zero-width 128-blocks, the marker coincidence at every position; every scenario also runs through the encoders' meta == NULL path, with output structs primed by a decoy encode, in the default, unoptimised and AVX2/AVX-512 (simd) builds; single-block BP128 codecs, RLE run iteration and dictionary Find/Lookup are bound as block / random-access readers. Wire.tla compares the bytes of FOR/PFOR/RLE/delta/group/dict/Elias-array/BP128 encodings and the adaptive envelope (unclaimed conformance fact). Run lengths sit on the tagged length classes (2286/2287/2288; 67823/67824 thorough); every scenario of up to 300 values is followed by a refill of the same buffers (same count, first and last element; interior swapped / duplicated) encoded and decoded again.",
         ref="DESIGN.md 4/C02", technique="TLA+ register spec + TLC-enumerated scenarios + TLC trace validation with guard-page buffers"),
     "C03": dict(
         text="Each Encode event carries the value the real sizing function returned for that input and the bytes "
@@ -128,7 +128,7 @@ CHECKS = {
              "patterns, bitmap range, outlier ratios around 5%, exact vs sampled uniqueness around 10000) and every "
              "forced encoding on its documented domain."
              " Selector.tla specifies the analysis and the decision tree as exact functions and proves (ASSUME) that some 60 deterministic recipes (exact number in the evidence file) land on, just below and just above every threshold of the tree, reaching all 8 leaves; the recipes run automatically selected and forced. Encodings larger than 2^20 bytes are part of the scenario space."
-             " Half-step progressions (steps of 2^62/2^63) feed the delta paths; duplicates beyond the 10000-element sampling window (n = 10010, 20001) are threshold recipes.",
+             " Every scenario of up to 300 values is followed by a refill of the same buffers (history-dependent selection). Half-step progressions (steps of 2^62/2^63) feed the delta paths; duplicates beyond the 10000-element sampling window (n = 10010, 20001) are threshold recipes.",
         ref="DESIGN.md 4/C06", technique="TLA+ register spec with nondeterministic selector + TLC-enumerated decision-tree scenarios + trace validation"),
     "C13": dict(
         text="For every capacity-taking decoder the driver decodes valid encodings into an output array of exactly "
@@ -165,7 +165,8 @@ CHECKS = {
              "values differ; thorough adds valgrind memcheck (Uninit events)."
              " Every reader (bulk, random access, block) of the produced bytes runs under the schedule's paints as well; previous-call kinds include a call on the SAME input buffer with other contents; heap residue reaches the library unmasked (real allocator, blocks of the sizes the call will request, allocation fills via M_PERTURB); call classes cover short, long and every byte-width class of inputs and the float codec."
              " Each encoder call class also runs with meta == NULL (a second memo class): the optional output struct must not be a hidden input."
-             " Twelve set-object histories (one per container conversion, set algebra, re-decoded objects, bulk add, optimise) are call classes too: serialisation and exported members must not depend on heap residue or earlier histories.",
+             " Twelve set-object histories (one per container conversion, set algebra, re-decoded objects, bulk add, optimise) are call classes too: serialisation and exported members must not depend on heap residue or earlier histories."
+             " The four scalar families (every put/get entry point on the ScalarGen.tla boundary domain) are call classes as well, the destination window's previous content varying with the schedule.",
         ref="DESIGN.md 4/C15", technique="TLA+ context model + TLC-enumerated perturbation schedules + stateful (memo) TLC trace validation"),
     "C17": dict(
         text="Threads.tla checks over all interleavings of Begin/End steps of 3 threads that with per-call scratch every "
@@ -176,7 +177,8 @@ CHECKS = {
              "is not an action of the specification."
              " Every codec's first call in the process is made by all threads at once behind a spin barrier (cold start; 24/200 extra processes), the sequential reference is computed after the threads; the threads' packed arrays and bitstreams lie back to back in one slab."
              " Reader threads decode shared encodings while writers encode into private buffers; shared bitmap objects are queried concurrently; a driver crash or hang under concurrency is re-run single-threaded and, if it then completes, becomes a Crash event (not an action of the specification)."
-             " Scalar varints of every width lie back to back across the threads' regions and are rewritten / stepped in place (tagged and external, no-grow) by their owners.",
+             " Scalar varints of every width lie back to back across the threads' regions and are rewritten / stepped in place (tagged and external, no-grow) by their owners."
+             " Shared read-only objects (pre-analysed FOR descriptor, built dictionary, parsed PFOR header) are built once and then only passed to the library by all threads.",
         ref="DESIGN.md 4/C17", technique="TLA+ interleaving model (TLC) + per-thread TLC trace validation + ThreadSanitizer reports as trace events"),
     "C18": dict(
         text="AllocModel.tla explores object lifetimes with a fault at every allocation step of every call and checks "
